@@ -117,7 +117,8 @@ def _rolling_task(task, p):
                     continue
                 # non-trivial: last window mixed or all-ND
                 c_last = valid[:, n - w:].sum(axis=1)
-                p.count(sub, nontrivial=int((c_last < w).sum()))
+                if dtype == "int16" and nd == nds[0]:
+                    p.count(sub, nontrivial=int((c_last < w).sum()))
                 # edge relation: restriction to the parent equals the parent's own result
                 if n > 1 and w <= n - 1:
                     pout = np.asarray(_stats().rolling_sum(pvals.astype(dtype), w, nd))
